@@ -103,7 +103,8 @@ def tlc(module, cfg_text, files=None, args=(), workers=8, heap="8g", timeout=360
                 fh.write(content)
         for d in pre_dirs:
             os.makedirs(os.path.join(run, d), exist_ok=True)
-        cmd = ["java", "-XX:+UseG1GC", "-Xmx" + heap, "-Xss64m"] + list(env_opts) + [
+        os.makedirs(os.path.join(run, "jtmp"), exist_ok=True)       # TLC's temporary directories stay inside the scratch directory
+        cmd = ["java", "-XX:+UseG1GC", "-Xmx" + heap, "-Xss64m", "-Djava.io.tmpdir=" + os.path.join(run, "jtmp")] + list(env_opts) + [
             "-cp", TLA_CP, "tlc2.TLC", "-workers", str(workers), "-metadir", os.path.join(run, "meta"),
             "-config", "run.cfg"] + list(map(str, args)) + [module + ".tla"]
         t0 = time.time()
